@@ -65,6 +65,19 @@ to the constructors the writer declares (CAPS):
   N-family   comments attached to spreadsheet cells (`ods+note`: office:annotation, `xlsx+note`: comments part): every grid of <= R rows
              of 1..C cells, each cell empty / text / text with a comment / empty with a comment, at least one comment; the comment text
              is hidden text (clause leak), the cell texts are judged as always.       quick: R=C=2   thorough: R=3 C=2
+             Comment bodies: a comment is not one paragraph but a block sequence of its own (ODF 1.2 part 1, 14.1: office:annotation
+             holds (text:p | text:list)*; a spreadsheetml comment is a sequence of rich-text runs).  Every grid of <= CELLS cells in one
+             row or one column (same four cell kinds, at least one comment) with one comment at a time carrying EVERY body that is not
+             one plain paragraph: every arrangement of <= NP paragraphs in paragraphs and bulleted lists (<= K blocks per block sequence,
+             <= NI items per list, lists nested <= D deep), and every body of ONE paragraph (bare / in a list / in a nested list) whose
+             inlines are  t span(t) | span(t) | t br t | t tab t | span(t br t);  the other comments of the grid are one plain paragraph
+             (thorough: also both comments of a two-comment grid carrying every pair of quick-tier bodies).  Every text leaf of a body is
+             a token of its own, all hidden.  xlsx: paragraphs are runs separated by a line feed, a span is a run with properties of its
+             own; bodies with lists are inexpressible.        quick: NP=2 D=2 K=2 NI=2 CELLS=2 (36 bodies)   thorough: NP=3 K=3 (166 bodies)
+  H-family   hidden text with a body of its own in text documents (`odt+hbody`): every term of the quick C-family of odt that holds a
+             comment anchor (office:annotation) or a tracked deletion (text:changed-region / text:deletion), with the hidden text of
+             every anchor / deletion written as every comment body of the N-family (quick: 36 bodies, thorough: 166 bodies); judged like
+             a spelling variant (where the plain odt spelling of the same term passes).
   R-family   read histories: EVERY evaluation of every family asks the same result objects for their text twice -
              get_full_text(); get_text() of every unit of iterate_units(); get_table() of every table of iterate_tables();
              get_full_text() again - and both full texts are judged by the same oracle (a clause that fails on the first is not
@@ -211,7 +224,7 @@ def _variant(fmt):
         return base, "hdr", tuple(rest[4:].split(":"))
     if rest.startswith("u:"):
         return base, "u", tuple(rest[2:].split(":"))
-    if rest in ("note", "nest"):
+    if rest in ("note", "nest", "hbody"):
         return base, rest, None
     return None
 
@@ -255,6 +268,8 @@ def _render_variant(var, doc):
         raise ValueError(var)
     if fam == "nest":
         return V.odf_draw_nested(base, doc, imgs)
+    if fam == "hbody":
+        return V.odt_hidden_bodies(doc, imgs)
     raise ValueError(var)
 
 
@@ -385,7 +400,7 @@ def variant_formats(tier):
             if q and scope == "second" and v != "hex":
                 continue          # quick: the mixed scope (plain and escaped characters in one word) for one fallback spelling only
             out.append("rtf+u:%s:%s" % (v, scope))
-    out += ["ods+note", "xlsx+note", "odg+nest", "odp+nest"]
+    out += ["ods+note", "xlsx+note", "odg+nest", "odp+nest", "odt+hbody"]
     return tuple(out)
 
 
@@ -824,6 +839,126 @@ def _n_grids(tier):
                 yield ("NG", g)
 
 
+def _h_family(fmt, tier):
+    """H-family: every term of the QUICK C-family of the base format that holds a comment anchor / a tracked deletion, with the hidden
+    text of every such anchor / deletion written as every body of _n_bodies(tier) (the same body for all of them)"""
+    base = fmt.split("+")[0]
+    seen = set()
+
+    def has(x):
+        return isinstance(x, tuple) and (x in (("cref",), ("del",)) or any(has(y) for y in x))
+
+    def put(x, body):
+        if x in (("cref",), ("del",)):
+            return (x[0], body)
+        if isinstance(x, tuple):
+            return tuple(put(y, body) for y in x)
+        return x
+    terms = []
+    for sk in _c_family(base, "quick"):
+        if sk not in seen:
+            seen.add(sk)
+            if has(sk):
+                terms.append(sk)
+    for body in _n_bodies(tier):
+        for sk in terms:
+            yield put(sk, body)
+
+
+# N-family, comment bodies: NP paragraphs at most, lists nested D deep at most, K blocks per block sequence, NI items per list at most;
+# CELLS: the grids that carry them; PAIRS: also both comments of a two-comment grid carry a body, every pair of bodies of the quick tier
+NB_BOUNDS = {"quick": dict(NP=2, D=2, K=2, NI=2, CELLS=2, PAIRS=False), "thorough": dict(NP=3, D=2, K=3, NI=2, CELLS=2, PAIRS=True)}
+NB_PLAIN = (("p", (("t",),)),)
+# the inline shapes of a comment paragraph other than one plain text
+NB_INLINE = ((("t",), ("span", (("t",),))), (("span", (("t",),)),), (("t",), ("br",), ("t",)), (("t",), ("tab",), ("t",)),
+             (("span", (("t",), ("br",), ("t",))),))
+
+
+def _n_bodies(tier):
+    """every comment body (block sequence) that is not one plain paragraph: <= NP paragraphs arranged in paragraphs and bulleted lists
+    (<= K blocks per sequence, <= NI items per list, lists nested <= D deep), every paragraph one plain text; and every body of ONE
+    paragraph (bare, in a list, in a nested list) with every inline shape of NB_INLINE"""
+    b = NB_BOUNDS[tier]
+    K, NI = b["K"], b["NI"]
+
+    @lru_cache(None)
+    def seqs(n, d, maxlen):
+        """block sequences of exactly n paragraphs, <= maxlen blocks"""
+        if n == 0:
+            return ((),)
+        if maxlen == 0:
+            return ()
+        out = []
+        for k in range(1, n + 1):
+            for first in blocks(k, d):
+                for rest in seqs(n - k, d, maxlen - 1):
+                    out.append((first,) + rest)
+        return tuple(out)
+
+    @lru_cache(None)
+    def blocks(n, d):
+        out = []
+        if n == 1:
+            out.append(("p", (("t",),)))
+        if d > 0:
+            for items in itemlists(n, d - 1, NI):
+                out.append(("ul", items))
+        return tuple(out)
+
+    @lru_cache(None)
+    def itemlists(n, d, maxitems):
+        """tuples of 1..maxitems non-empty items (block sequences) holding exactly n paragraphs"""
+        if n == 0:
+            return ((),)
+        if maxitems == 0:
+            return ()
+        out = []
+        for k in range(1, n + 1):
+            for first in seqs(k, d, K):
+                for rest in itemlists(n - k, d, maxitems - 1):
+                    out.append((first,) + rest)
+        return tuple(out)
+
+    out = []
+    for n in range(1, b["NP"] + 1):
+        for body in seqs(n, b["D"], K):
+            if body != NB_PLAIN:
+                out.append(body)
+
+    def with_inl(x, inl):
+        if x == ("p", (("t",),)):
+            return ("p", inl)
+        if isinstance(x, tuple):
+            return tuple(with_inl(y, inl) for y in x)
+        return x
+    for body in seqs(1, b["D"], K):
+        for inl in NB_INLINE:
+            out.append(with_inl(body, inl))
+    return out
+
+
+def _nb_grids(tier):
+    """N-family, comment bodies: every grid of <= CELLS cells in one row or one column, each cell empty (0), text (1), text with a comment
+    (2) or empty with a comment (3), at least one comment - one comment at a time carrying every body of _n_bodies, the other comments one
+    plain paragraph (thorough: also both comments of a grid carrying every pair of bodies of the quick tier).  Skeleton: ("NB", grid, bodies) - bodies[i] belongs to the i-th
+    comment in row-major order (None: a plain paragraph)."""
+    import itertools
+    b = NB_BOUNDS[tier]
+    bodies = _n_bodies(tier)
+    for ncell in range(1, b["CELLS"] + 1):
+        for kinds in itertools.product((0, 1, 2, 3), repeat=ncell):
+            nc = sum(1 for v in kinds if v >= 2)
+            if not nc:
+                continue
+            layouts = [(tuple(kinds),)] + ([tuple((v,) for v in kinds)] if ncell > 1 else [])
+            assigns = [tuple(body if j == i else None for j in range(nc)) for i in range(nc) for body in bodies]
+            if b["PAIRS"] and nc > 1:
+                assigns += list(itertools.product(_n_bodies("quick"), repeat=nc))
+            for g in layouts:
+                for a in assigns:
+                    yield ("NB", g, a)
+
+
 # ---------------------------------------------------------------------------------------------- run-length encoding (ODF)
 
 def _rle_rows(rows, t, cell_rep, row_rep):
@@ -936,6 +1071,10 @@ def _build_inl(xs, tk, cls):
             out.append([k])
         elif k == "ins":
             out.append(["ins", tk.new("I")])
+        elif k in ("del", "cref") and len(x) > 1:
+            # hidden text with a body of its own (H-family): [kind, first text leaf of the body, body]
+            body = _build_note_body(x[1], tk, "D" if k == "del" else "M")
+            out.append([k, _note_tokens(body)[0], body])
         elif k == "del":
             out.append(["del", tk.new("D")])
         elif k == "cref":
@@ -1006,14 +1145,29 @@ def build_sheets_m(rows, seed):
     return ["doc", {}, [["sheet", name, grid]]]
 
 
+def _build_note_body(body, tk, cls="M"):
+    """comment body skeleton -> JSON body (see verif.props.c02_variants.note_tokens), every text leaf a fresh token of class M"""
+    def inl(xs):
+        return [["t", tk.new(cls)] if x[0] == "t" else (["span", inl(x[1])] if x[0] == "span" else [x[0]]) for x in xs]
+
+    def blocks(bs):
+        return [["p", inl(b[1])] if b[0] == "p" else ["ul", [blocks(it) for it in b[1]]] for b in bs]
+    return blocks(body)
+
+
 def build_sheets(skel, seed):
     if skel and skel[0] == "MG":
         return build_sheets_m(skel[1], seed)
-    if skel and skel[0] == "NG":
+    if skel and skel[0] in ("NG", "NB"):
         tk = Tokens(seed)
         name = tk.new("N")
-        mk = {0: lambda: None, 1: lambda: ["s", tk.new("C")], 2: lambda: ["s", tk.new("C"), {"note": tk.new("M")}],
-              3: lambda: ["n", tk.new("M")]}
+        bodies = list(skel[2]) if skel[0] == "NB" else None
+
+        def note():
+            body = bodies.pop(0) if bodies else None
+            return tk.new("M") if body is None else _build_note_body(body, tk)
+        mk = {0: lambda: None, 1: lambda: ["s", tk.new("C")], 2: lambda: ["s", tk.new("C"), {"note": note()}],
+              3: lambda: ["n", note()]}
         return ["doc", {}, [["sheet", name, [[mk[v]() for v in row] for row in skel[1]]]]]
     tk = Tokens(seed)
     sheets = []
@@ -1037,9 +1191,17 @@ def skeletons(fmt, tier, k=0, n=1):
     """The skeletons of partition k of n of the format's space, without duplicates. ('adm'|'sheet', skeleton)"""
     var = _variant(fmt)
     if var and var[1] == "note":
-        for i, g in enumerate(_n_grids(tier)):
+        import itertools
+        for i, g in enumerate(itertools.chain(_n_grids(tier), _nb_grids(tier))):
             if i % n == k:
                 yield ("sheet", g)
+        return
+    if var and var[1] == "hbody":
+        i = 0
+        for sk in _h_family(fmt, tier):
+            if i % n == k:
+                yield ("adm", sk)
+            i += 1
         return
     if var:
         # V-family: the spelling variant over the C-family of its base format (every constructor in every 1-block context)
@@ -1134,6 +1296,11 @@ def cases_for(fmt, tier, seed, k=0, n=1):
 
 # ====================================================================================================== ground truth
 
+def _note_tokens(note):
+    from verif.props import c02_variants as V
+    return V.note_tokens(note)
+
+
 def sheet_truth(doc, fmt):
     """string cells are the visible text (row-major); first token of a sheet: unit boundary, first of a later row: row, else cell.
     Sheet names are documented decoration (class N): neither required nor forbidden."""
@@ -1145,10 +1312,10 @@ def sheet_truth(doc, fmt):
             first_in_row = True
             for cell in row:
                 if cell is not None and cell[0] == "n":
-                    hid.append(cell[1])                  # an empty cell that carries a comment
+                    hid.extend(_note_tokens(cell[1]))    # an empty cell that carries a comment
                     continue
                 if cell is not None and len(cell) > 2 and (cell[2] or {}).get("note"):
-                    hid.append(cell[2]["note"])          # a cell comment is a comment: documented as excluded from the full text
+                    hid.extend(_note_tokens(cell[2]["note"]))   # a cell comment (every text leaf of its body) is a comment: documented as excluded from the full text
                 if cell is not None and cell[0] == "s":
                     vis.append((cell[1], "unit" if first_in_sheet else ("row" if first_in_row else "cell")))
                     first_in_sheet = False
@@ -1273,8 +1440,23 @@ def truth_for(fmt, doc):
                 uvis = tv + rest
             out += uvis
         vis = out
-    return {"visible": vis, "hidden": list(tr["hidden"]), "dontcare": list(tr["dontcare"]), "tabletoks": tabletoks,
+    hidden = list(tr["hidden"])
+    for t in _hidden_body_tokens(doc[2]):
+        if t not in hidden:
+            hidden.append(t)
+    return {"visible": vis, "hidden": hidden, "dontcare": list(tr["dontcare"]), "tabletoks": tabletoks,
             "tablecount": _table_token_counts(doc) if tabletoks else {}}
+
+
+def _hidden_body_tokens(x):
+    """text leaves of the bodies of [cref|del, first leaf, body] inlines (H-family)"""
+    out = []
+    if isinstance(x, list):
+        if len(x) == 3 and x[0] in ("cref", "del") and isinstance(x[2], list):
+            return _note_tokens(x[2])
+        for y in x:
+            out += _hidden_body_tokens(y)
+    return out
 
 
 def _table_token_counts(doc):
@@ -1628,6 +1810,12 @@ def _shrinks_structural(doc):
                     if row[c] is not None and len(row[c]) > 2:
                         yield ["doc", meta, units[:i] + [["sheet", sh[1], grid[:r] + [row[:c] + [row[c][:2]] + row[c + 1:]] + grid[r + 1:]]] + units[i + 1:]]
                         yield ["doc", meta, units[:i] + [["sheet", sh[1], grid[:r] + [row[:c] + [["n", row[c][2]["note"]]] + row[c + 1:]] + grid[r + 1:]]] + units[i + 1:]]
+                    if row[c] is not None and row[c][0] == "n":
+                        for nt in _shrink_note(row[c][1]):
+                            yield ["doc", meta, units[:i] + [["sheet", sh[1], grid[:r] + [row[:c] + [["n", nt]] + row[c + 1:]] + grid[r + 1:]]] + units[i + 1:]]
+                    elif row[c] is not None and len(row[c]) > 2 and (row[c][2] or {}).get("note"):
+                        for nt in _shrink_note(row[c][2]["note"]):
+                            yield ["doc", meta, units[:i] + [["sheet", sh[1], grid[:r] + [row[:c] + [row[c][:2] + [dict(row[c][2], note=nt)]] + row[c + 1:]] + grid[r + 1:]]] + units[i + 1:]]
         return
     for k in sorted(meta):
         m = dict(meta)
@@ -1644,6 +1832,48 @@ def _shrinks_structural(doc):
             yield ["doc", meta, units[:i] + [["unit", u[1], e2]] + units[i + 1:]]
         for bs in _shrink_blocks(u[1]):
             yield ["doc", meta, units[:i] + [["unit", bs, ex]] + units[i + 1:]]
+
+
+def _shrink_note(note):
+    """smaller comments: a body that is one plain paragraph becomes that text; drop a block / an item / an inline, hoist the blocks of a
+    list item in place of the list, the inlines of a span in place of the span"""
+    if isinstance(note, str):
+        return
+    if len(note) == 1 and note[0][0] == "p" and len(note[0][1]) == 1 and note[0][1][0][0] == "t":
+        yield note[0][1][0][1]
+        return
+
+    def inl(xs):
+        for i, x in enumerate(xs):
+            if len(xs) > 1:
+                yield xs[:i] + xs[i + 1:]
+            if x[0] == "span":
+                yield xs[:i] + x[1] + xs[i + 1:]
+                for y in inl(x[1]):
+                    yield xs[:i] + [["span", y]] + xs[i + 1:]
+
+    def has_text(xs):
+        return any(x[0] == "t" or (x[0] == "span" and has_text(x[1])) for x in xs)
+
+    def blocks(bs, top):
+        for i, b in enumerate(bs):
+            if len(bs) > 1:
+                yield bs[:i] + bs[i + 1:]
+            if b[0] == "p":
+                for y in inl(b[1]):
+                    if has_text(y):
+                        yield bs[:i] + [["p", y]] + bs[i + 1:]
+            else:
+                for j, it in enumerate(b[1]):
+                    yield bs[:i] + it + bs[i + 1:]
+                    if len(b[1]) > 1:
+                        yield bs[:i] + [["ul", b[1][:j] + b[1][j + 1:]]] + bs[i + 1:]
+                    for y in blocks(it, False):
+                        if y:
+                            yield bs[:i] + [["ul", b[1][:j] + [y] + b[1][j + 1:]]] + bs[i + 1:]
+    for y in blocks(note, True):
+        if y:
+            yield y
 
 
 def _shrink_blocks(bs):
@@ -1697,6 +1927,9 @@ def _shrink_inl(xs):
         pre, post = xs[:i], xs[i + 1:]
         if k == "ins":
             yield pre + [["t", x[1]]] + post         # a plain run instead of a tracked insertion
+        elif k in ("cref", "del") and len(x) > 2:
+            for nt in _shrink_note(x[2]):
+                yield pre + [[k, nt] if isinstance(nt, str) else [k, _note_tokens(nt)[0], nt]] + post
         elif k == "a":
             yield pre + x[2] + post
             for s in _shrink_inl(x[2]):
@@ -1872,14 +2105,15 @@ def run(ctx):
         if s["fmt"] not in [p["fmt"] for p in picked]:
             picked.append(s)
     b = BOUNDS[ctx.tier]
-    fam = {"V (spelling variants)": sum(v["evaluated"] for f_, v in per_fmt.items() if _variant(f_) and _variant(f_)[1] != "note"),
-           "N (cell comments)": sum(v["evaluated"] for f_, v in per_fmt.items() if _variant(f_) and _variant(f_)[1] == "note"),
+    fam = {"V (spelling variants)": sum(v["evaluated"] for f_, v in per_fmt.items() if _variant(f_) and _variant(f_)[1] not in ("note", "hbody")),
+           "N (cell comments, comment bodies)": sum(v["evaluated"] for f_, v in per_fmt.items() if _variant(f_) and _variant(f_)[1] == "note"),
+           "H (hidden bodies: odt annotations / tracked deletions)": sum(v["evaluated"] for f_, v in per_fmt.items() if _variant(f_) and _variant(f_)[1] == "hbody"),
            "S C E M G (base formats and writer variants)": sum(v["evaluated"] for f_, v in per_fmt.items() if not _variant(f_)),
            "R (second full text judged)": ev}
     for f_, v in sigs.items():
         per_fmt[f_]["distinct_output_layouts"] = len(v)
     cov = {"evaluations": ev, "distinct_nontrivial": sum(len(v) for v in sigs.values()), "outcome_classes": len(outcomes), "exhaustive": True, "inexpressible_terms_skipped": skipped,
-           "rule": "every ADM term of the S-, C-, E-, M- (documents) and G-, M-, N- (spreadsheets; N = cell comments) families within the tier bounds (M = every assignment "
+           "rule": "every ADM term of the S-, C-, E-, M-, H- (documents; H = comment / tracked-deletion bodies) and G-, M-, N- (spreadsheets; N = cell comments and their bodies) families within the tier bounds (M = every assignment "
                    "of texts to the leaves of a small document / grid in which a text occurs several times, also run-length encoded for ODF), restricted to each "
                    "writer's CAPS, rendered by the reference writer - and, for the C-family, by every spelling variant of the V-family (HTML / EPUB containers and "
                    "inline markup inside words, MIME header spellings of MHTML parts, RTF \\uN fallback spellings, text boxes nested in ODF drawing paragraphs) - "
@@ -1887,7 +2121,9 @@ def run(ctx):
                    "extracted and judged on all applicable clauses; distinct_nontrivial = distinct (format, output layout) pairs observed, a layout "
                    "being the extracted text with tokens abstracted to T and every white-space run to its strongest character; outcome_classes = "
                    "distinct (format, set of failed clauses)",
-           "bounds": dict(b, S_bonus=S_BONUS, M_family=M_BOUNDS[ctx.tier], N_family=dict(zip(("R", "C"), N_BOUNDS[ctx.tier])),
+           "bounds": dict(b, S_bonus=S_BONUS, M_family=M_BOUNDS[ctx.tier], N_family=dict(zip(("R", "C"), N_BOUNDS[ctx.tier]), comment_bodies=dict(NB_BOUNDS[ctx.tier], bodies=len(_n_bodies(ctx.tier)),
+                                                                                                      inline_shapes=len(NB_INLINE) + 1)),
+                          H_family=dict(terms="quick C-family terms of odt with a comment anchor / tracked deletion", bodies=len(_n_bodies(ctx.tier))),
                           V_family=list(variant_formats(ctx.tier)), V_family_terms="C-family of the base format",
                           R_family="get_full_text, iterate_units/get_text, iterate_tables/get_table, get_full_text - on every evaluation"),
            "families": fam, "per_format": per_fmt, "outcomes": dict(sorted(outcomes.items())), "samples": picked[:6]}
@@ -1903,6 +2139,8 @@ ASSUMPTIONS = [
     "(b, i, span, a ...) do not separate words; caption, th, figcaption, dt, dd, blockquote, pre, div ... hold visible body text",
     "a spelling variant is judged only on clauses that hold for the base spelling of the same term (shared failures belong to the base format)",
     "the text of a spreadsheet cell comment is a comment (hidden class): it must not appear in get_full_text()",
+    "every text leaf of the body of a comment (paragraphs, list items at any depth, spans) is comment text, and every text leaf of the body "
+    "of a tracked deletion is deleted text: hidden, whatever the block structure of the body (ODF 1.2 part 1, 14.1, 5.5.4)",
     "a cell / row carrying table:number-columns-repeated / table:number-rows-repeated stands for that many identical adjacent cells / rows "
     "(ODF 1.2 part 1, definitions of these attributes): its text is in the source that many times",
     "footnote bodies, hyperlink targets and sheet names are class Z / decoration: neither required nor forbidden, removed before `invented`",
